@@ -211,8 +211,8 @@ def run(tier, seed):
         "evaluations": replayed, "distinct_nontrivial": len(nontrivial),
         "rule": "one generator run + rustc type-check per IR: %d module-structure IRs emitted by TLC (of %d cases; %d cases with a "
                 "type-module/package clash are excluded as the recorded limitation), 3 hand-designed families x 3 configurations, "
-                "3 known-limitation IRs. Every IR is non-trivial (>= 1 type with cross references); distinct by IR id." % (
-                    len(picked), len(cases), clashing),
+                "%d known-limitation IRs. Every IR is non-trivial (>= 1 type with cross references); distinct by IR id." % (
+                    len(picked), len(cases), clashing, len(kb)),
         "model_runs": runs, "coverage_by_action": cov, "exhaustive": False,
     }
     out.assumptions = ["TLC 1.8.0", "rustc is the oracle of 'compiles'", "Conjure-compiler validity is approximated conservatively "
